@@ -240,13 +240,13 @@ def reaches_only_via(nodes, src, guard):
 
 @st.composite
 def pipeline_spec(draw, kinds=None, min_nodes=1, max_nodes=7, max_entries=3, feedback=True,
-                  maxdepth=2, force_first=None):
+                  maxdepth=2, force_first=None, force_feedback=False):
     kinds = list(kinds or SYNC_KINDS)
     n_entries = draw(st.integers(1, max_entries))
     nodes = [{"k": "entry", "u": [], "p": {}, "t": "E"} for _ in range(n_entries)]
     n = draw(st.integers(min_nodes, max_nodes))
     guard = None
-    want_fb = feedback and draw(st.integers(0, 3)) == 0
+    want_fb = feedback and (force_feedback or draw(st.integers(0, 3)) == 0)
     if want_fb:
         nodes.append({"k": "unique", "u": [0],
                       "p": {"maxsize": None, "key": "key_self", "hashable": draw(st.booleans())},
